@@ -5,7 +5,7 @@ import os
 from vlib import core
 
 
-def explore(ctx, binname, module, n_quick, n_thorough, per_file=25, cfg=None, extra_args=None, workers=4):
+def explore(ctx, binname, module, n_quick, n_thorough, per_file=25, cfg=None, extra_args=None, workers=4, lifted=False):
     """Export programs with the recorder in batches, explore each batch with TLC."""
     n = n_quick if ctx.quick else n_thorough
     nfiles = max(1, (n + per_file - 1) // per_file)
@@ -15,6 +15,11 @@ def explore(ctx, binname, module, n_quick, n_thorough, per_file=25, cfg=None, ex
                      {"extra_env": {"VERIF_SEED": str(ctx.seed * 100000 + i)}}))
     paths = ctx.record_many(jobs, parallel=4)
     rs = ctx.tlc_explore_many(module, paths, parallel=4 if ctx.quick else 8, cfg=cfg, workers=workers)
+    # second source: functions lifted by the real translators from corpus/c17 (if the recorder supports it)
+    if lifted:
+        lp = ctx.record(binname, ["--mode", "lifted", "--corpus", os.path.join(core.ROOT, "corpus", "c17")], "lifted.json")
+        rs.append(ctx.tlc_explore(module, lp, cfg=cfg, workers=workers))
+        paths = paths + [lp]
     nprog = 0
     for p in paths:
         with open(p) as f:
